@@ -164,6 +164,10 @@ def reformat_files(
         return
 
     # Multiple files case
+    if inplace and "-" in files:
+        # Refuse before anything is written: the per-file check in `reformat_file()` would
+        # only fire when the loop reaches stdin, after earlier files were already rewritten.
+        raise ValueError("Cannot use `inplace` with stdin")
     if not inplace and output and output != "-":
         raise ValueError(
             "Cannot specify output file when processing multiple files (use --inplace instead)"
